@@ -79,8 +79,14 @@ static uintptr_t* htab_key;
 static _Atomic int turn = 0;
 static int tstate[MAXT]; /* 0 unused 1 runnable 2 finished */
 static int nthreads = 1;
+/* spinning: a thread that hit a spin point stays "spinning" until some OTHER thread makes
+ * progress (its own writes / fiber switches do not count: a thread ping-ponging between two
+ * polling fibers is still only polling) */
 static uint64_t spin_epoch[MAXT];
 static uint64_t epoch = 1;
+static uint64_t own_progress[MAXT];
+#define PROGRESS() do { epoch++; if (my_tid >= 0) own_progress[my_tid]++; } while (0)
+#define OTHERS(t) (epoch - own_progress[t])
 static uint64_t frozen_until[MAXT];
 static int prio[MAXT];
 static __thread int my_tid = -1;
@@ -93,6 +99,10 @@ static void* pend_addr[MAXT];
 
 static uint64_t sp_count, budget = 400000, allspin_streak, hang_limit = 30000;
 static uint64_t rng;
+static uint64_t last_run[MAXT];
+static uint64_t starve_limit = 2500;
+static int boost_tid = -1;
+static uint64_t boost_until;
 static uint64_t ro_streak[MAXT];
 static uint64_t ro_limit = 48;
 static int sched_kind; /* 0 rand 1 pct 2 freeze 3 rr(no preempt) */
@@ -164,6 +174,7 @@ static void vr_init(void) {
   freeze_len = envl("VR_FREEZE_LEN", freeze_len);
   auto_tick = envl("VR_AUTOTICK", 1);
   ro_limit = envl("VR_ROSPIN", ro_limit);
+  starve_limit = envl("VR_STARVE", starve_limit);
   const char* sk = getenv("VR_SCHED");
   if (sk && !strcmp(sk, "pct")) sched_kind = 1;
   else if (sk && !strcmp(sk, "freeze")) sched_kind = 2;
@@ -431,10 +442,23 @@ void vr_note(const char* fmt, ...) {
 
 /* ------------------------------------------------------------------ scheduler */
 
-static int is_spinning(int t) { return spin_epoch[t] == epoch; }
+static int is_spinning(int t) { return spin_epoch[t] == OTHERS(t); }
 
 static int pick(int me, int spin) {
   int cand[MAXT], nc = 0, all[MAXT], na = 0;
+  last_run[me] = sp_count;
+  /* bounded unfairness: whatever the strategy, a runnable thread is never kept off the CPU for
+   * more than starve_limit scheduling points (two threads that merely poll each other's
+   * progress would otherwise starve a third one for ever under strict priorities) */
+  if (boost_tid == me && sp_count < boost_until && tstate[me] == 1 && !spin) return me;
+  for (int t = 0; t < nthreads; t++)
+    if (t != me && tstate[t] == 1 && sp_count - last_run[t] > starve_limit) {
+      last_run[t] = sp_count;
+      /* and let it run for a stretch, not for one step */
+      boost_tid = t;
+      boost_until = sp_count + starve_limit / 8;
+      return t;
+    }
   for (int t = 0; t < nthreads; t++) {
     if (tstate[t] != 1 || t == me) continue;
     all[na++] = t;
@@ -480,7 +504,7 @@ static void sp(int spin, int post_write) {
   else if (++ro_streak[my_tid] > ro_limit) spin = 1;
   if (sp_count > budget) vr_finish("BUDGET");
   if (spin) {
-    spin_epoch[my_tid] = epoch;
+    spin_epoch[my_tid] = OTHERS(my_tid);
     int allspin = 1;
     for (int t = 0; t < nthreads; t++)
       if (tstate[t] == 1 && !is_spinning(t)) allspin = 0;
@@ -523,7 +547,7 @@ static void thread_exit_handoff(void) {
   int me = my_tid;
   complete_pending(me);
   tstate[me] = 2;
-  epoch++;
+  PROGRESS();
   int nx = -1;
   for (int t = 0; t < nthreads; t++)
     if (tstate[t] == 1) {
@@ -553,6 +577,7 @@ int pthread_create(pthread_t* th, const pthread_attr_t* attr, void* (*fn)(void*)
   t->arg = arg;
   t->tid = nthreads;
   tstate[nthreads] = 1;
+  last_run[nthreads] = sp_count;
   nthreads++;
   return real_pthread_create(th, attr, trampoline, t);
 }
@@ -592,7 +617,7 @@ static inline void plain(void* addr, int size, int is_write) {
   if (is_write) {
     pend[t] = (int)(e - evs);
     pend_addr[t] = addr;
-    epoch++;
+    PROGRESS();
     ro_streak[t] = 0;
   } else {
     uint64_t v = 0;
@@ -658,7 +683,7 @@ void __tsan_func_exit(void) {
  * value, failed CAS, fetch_add 0) is a poll, not progress */
 #define POSTW(changed)      \
   if (_c >= 0) {            \
-    if (changed) epoch++;   \
+    if (changed) PROGRESS();   \
     sp(0, (changed) != 0);  \
     in_rt = 0;              \
   }
@@ -785,7 +810,7 @@ void vr_rq_push(void* d, void* p) {
   ev_t* e = newev(K_RQPUSH, -1, 0, 0);
   e->a = (uint64_t)d;
   e->b = (uint64_t)p;
-  epoch++;
+  PROGRESS();
 }
 void* vr_rq_pop(void* d, void* r) {
   if (my_tid < 0 || in_rt) return r;
@@ -793,7 +818,7 @@ void* vr_rq_pop(void* d, void* r) {
   ev_t* e = newev(K_RQPOP, -1, 0, 0);
   e->a = (uint64_t)d;
   e->b = (uint64_t)r;
-  if ((intptr_t)r != -1) epoch++;
+  if ((intptr_t)r != -1) PROGRESS();
   sp(0, (intptr_t)r != -1);
   return r;
 }
@@ -803,7 +828,7 @@ void* vr_rq_steal(void* d, void* r) {
   ev_t* e = newev(K_RQSTEAL, -1, 0, 0);
   e->a = (uint64_t)d;
   e->b = (uint64_t)r;
-  if ((intptr_t)r != -1) epoch++;
+  if ((intptr_t)r != -1) PROGRESS();
   sp(0, (intptr_t)r != -1);
   return r;
 }
@@ -828,7 +853,7 @@ void vr_cas2_post(volatile void* loc, const void* orig, const void* nw, int ok) 
   e->c = n[0];
   e->d = n[1];
   e->ok = ok;
-  epoch++;
+  PROGRESS();
   sp(0, 1);
 }
 
@@ -879,7 +904,7 @@ void __tsan_switch_to_fiber(void* fiber, unsigned flags) {
     complete_pending(my_tid);
     ev_t* e = newev(K_SWITCH, -1, 0, 0);
     e->a = f->id;
-    epoch++;
+    PROGRESS();
     idle_streak = 0;
     ro_streak[my_tid] = 0;
   }
@@ -905,7 +930,7 @@ void vr_tick(uint64_t n) {
     /* raw syscall: the library under test defines its own write() shim */
     long r = syscall(SYS_write, vtimer_fd, &n, sizeof n);
     (void)r;
-    epoch++;
+    PROGRESS();
   }
 }
 
@@ -916,7 +941,7 @@ int epoll_wait(int epfd, struct epoll_event* evs_, int maxevents, int timeout) {
   complete_pending(my_tid);
   int n = real_epoll_wait(epfd, evs_, maxevents, 0);
   if (n > 0) {
-    epoch++;
+    PROGRESS();
     idle_streak = 0;
     sp(0, 0);
     return n;
